@@ -11,6 +11,7 @@
 #include <vector>
 
 #include <djinterop/djinterop.hpp>
+#include <djinterop/engine/v2/engine_library.hpp>
 
 #include "simdisk.hpp"
 #include "taps.hpp"
@@ -269,6 +270,7 @@ struct World
     bool stop = false;       // world left the model: stop the run
     std::string stop_reason;
     int steps_executed = 0;
+    int64_t clock0 = 0;  // simulated clock at the start of the run
     std::map<std::string, uint64_t> op_counts;
     std::map<std::string, uint64_t> fault_fired;
     std::set<uint64_t> state_hashes;  // distinct observation hashes seen
@@ -353,6 +355,7 @@ struct World
     bool exec_table_op(const Step& s);    // table.cpp (actor T)
     bool exec_foreign_op(const Step& s);  // foreign.cpp (actor F)
     void foreign_forget();
+    void audit_table_row(int64_t id, const djinterop::engine::v2::track_row& row, const std::string& op);
     void corrupt_blob(const Step& s, int track_index);
     void corrupt_pages(const Step& s);
     bool exec_hostile_op(const Step& s);  // hostile.cpp
